@@ -549,5 +549,11 @@ func (lr *limitReader) Read(p []byte) (int, error) {
 	if lr.n < 0 {
 		lr.n = 0
 	}
+	if lr.n == 0 && err == io.EOF {
+		// The byte one past the limit arrived together with the end of the
+		// message: the message exceeds the limit, it did not end within it.
+		err = fmt.Errorf("read limited at %v bytes", lr.limit.Load())
+		lr.c.writeError(StatusMessageTooBig, err)
+	}
 	return n, err
 }
